@@ -9,6 +9,7 @@ import os
 import sys
 import uuid
 from collections.abc import Mapping, Sequence
+from threading import RLock
 from typing import Callable, FrozenSet
 from typing import Sequence as Sequence_t
 
@@ -220,13 +221,15 @@ class JSONCollection(SyncedCollection):
     def filename(self, value):
         # When setting the filename we must also remap the locks.
         with self._thread_lock:
-            if type(self)._threading_support_is_active:
-                old_lock_id = self._lock_id
-
             self._filename = value
 
+            # Other collections may still be bound to the old file (and use its
+            # lock), and the new file may already have a lock that others are
+            # using, so locks are never moved: create one only if needed.
             if type(self)._threading_support_is_active:
-                type(self)._locks[self._lock_id] = type(self)._locks.pop(old_lock_id)
+                with type(self)._cls_lock:
+                    if self._lock_id not in type(self)._locks:
+                        type(self)._locks[self._lock_id] = RLock()
 
     @property
     def _lock_id(self):
